@@ -403,6 +403,12 @@ func Step(op, detail string) {
 	s.step(t, op, detail, nil, nil)
 }
 
+// Scheduled reports whether the calling goroutine is a thread of the installed session.
+func Scheduled() bool {
+	s := cur.Load()
+	return s != nil && s.me() != nil
+}
+
 // Await is a scheduling point at which the caller is enabled iff ready().
 func Await(op string, ready func() bool) {
 	s := cur.Load()
